@@ -109,6 +109,18 @@ func (propC17) Gen(seed uint64, ex map[string]bool) interface{} {
 	}
 	variant(reFilterName, func(m []string) string { return "|nosuch_" + m[1] })
 	variant(reFuncName, func(m []string) string { return "nosuch_" + m[1] + "(" })
+	if !strings.Contains(main, "{% extends") {
+		// unknown macro names: on an imported module, on _self, in a from-import list, and as a plain call
+		if strings.Contains(main, "import 'lib' as L") {
+			sc.Unknown = append(sc.Unknown, main+"{{ L.nosuch_macro(1) }}")
+		} else if f.Macros {
+			sc.Unknown = append(sc.Unknown, main+"{% import 'lib' as LL %}{{ LL.nosuch_macro(1) }}")
+			sc.Unknown = append(sc.Unknown, main+"{% from 'lib' import nosuch_macro %}")
+		}
+		if r.P(30) {
+			sc.Unknown = append(sc.Unknown, main+"{{ _self.nosuch_macro() }}")
+		}
+	}
 	if r.P(50) && !strings.Contains(main, "{% extends") {
 		// an unknown function directly under `default` / `length` (top level of a non-inheriting template)
 		sc.Unknown = append(sc.Unknown, main+"{{ nosuch_fn(1)|"+pick(r, []string{"default('d')", "length", "default('d')|upper"})+" }}")
@@ -275,6 +287,8 @@ func (propC17) Run(scI interface{}) *Outcome {
 		o.Probes["unknown_name_variants"]++
 		what := "filter"
 		switch {
+		case strings.Contains(v, "nosuch_macro"):
+			what = "macro"
 		case strings.Contains(v, "nosuch/"):
 			what = "template"
 		case strings.Contains(v, "is nosuch_"):
